@@ -175,7 +175,7 @@ void world_msg_cb(tpt_p tpt, void *udata) {
 	if (m->exec_sync) {
 		int ok = 0;
 		if ((m->flags & TP_MSG_F_SELF_DIRECT) && m->sender_tpt == dst) { ok = 1; sim_probe("msg.self_direct"); }
-		if ((m->flags & TP_MSG_F_FORCE) && !m->dst_running) { ok = 1; sim_probe("msg.force_direct"); }
+		if ((m->flags & TP_MSG_F_FORCE) && (!m->dst_running || m->race)) { ok = 1; sim_probe("msg.force_direct"); }
 		if ((m->flags & TP_MSG_F_FAIL_DIRECT) && sim_qwrite_fails() > m->qfail_before) { ok = 1; sim_probe("msg.fail_direct"); }
 		if (!ok) {
 			MSGV("msg-direct-unjustified", "message %d (flags %x, dst %d running=%d) was executed synchronously in the sender although no direct-call condition held", m->id, m->flags, m->dst, m->dst_running);
